@@ -24,7 +24,9 @@ Verdicts:
 * an accepted message that the Spec says must be REJECTED (e.g. a non-bool value of a known role feature)
                                                                                 -> Violation "accepted-but-spec-rejects:<Class>:<site>"
   (named "id-range-unchecked:<Class>.<field>" / "wrong-type-accepted:<Class>.<field>" when the rejecting check is that of
-  an attribute whose accepted value is an id out of range / any other value)
+  an attribute whose accepted value is an id out of range / any other value; "uri-unchecked:<Class>.<field>" when it is a
+  string that is not a URI).  The Spec judges URI- and id-typed details by its OWN field table (SchemaSpec.specDetailTable,
+  written from the WAMP spec, not read from the schema the parser model interprets).
 * a re-marshalled message that does not parse back to the same attributes       -> Violation "reparse-...:<Class>"
 * model != real on any observable                                              -> correspondence break
 
@@ -245,6 +247,13 @@ def part_struct(ctx, res, code_names, replay_tok=None):
                     elif reason == "code":
                         key = f"type-code:{cname}"
                         what = f"a message with type code {wval.dec(c['tok'])[0]} is accepted as {cname}: not the WAMP protocol's code for that class"
+                    elif reason == "spec-table":
+                        # the Spec's OWN field table (written from the WAMP spec) says this detail is a URI / an id
+                        vv = fields.get(f)
+                        kind = "uri-unchecked" if isinstance(vv, str) else (
+                            "id-range-unchecked" if type(vv) is int or isinstance(vv, list) else "wrong-type-accepted")
+                        key = f"{kind}:{cname}.{f}"
+                        what = f"{cname}.parse accepts {f}={vv!r}: the WAMP spec makes this field a URI / an id (Spec field table)"
                     elif reason == "id-range":
                         key = f"id-range-unchecked:{cname}.{f}"
                         what = f"{cname}.parse accepts {f}={fields.get(f)!r}: a WAMP id outside [0, 2^53]"
@@ -265,6 +274,9 @@ def part_struct(ctx, res, code_names, replay_tok=None):
                     # the model checks this field with check_or_raise_id, the code let the value through
                     violate(f"id-range-unchecked:{cname}.{site}",
                             f"{cname}.parse accepts {site}={val!r}: a WAMP id outside [0, 2^53]", replay)
+                elif sp.split(" ")[1] == "InvalidUriError" and isinstance(val, str):
+                    violate(f"uri-unchecked:{cname}.{site}",
+                            f"{cname}.parse accepts {site}={val!r}: not a URI (the model checks this field with check_or_raise_uri)", replay)
                 elif site in fields and val is not None and site != "roles":
                     violate(f"wrong-type-accepted:{cname}.{site}",
                             f"{cname}.parse accepts {site}={val!r}: the model's check at '{site}' raises {sp.split(' ')[1]}", replay)
